@@ -10,6 +10,7 @@ world (engine._reference).  DESIGN section 3, C14.
 
 import itertools
 import json
+import os
 
 from .common import BaseHooks, V, ref_request, sub_rng
 
@@ -340,10 +341,27 @@ CATALOGUE = _catalogue()
 _CAT_W = [c[2] for c in CATALOGUE]
 
 
+_OFFTYPE_P = float(os.environ.get("QSIM_C14_OFFTYPE_P", "0.05"))
+
+
 def gen_fn_step(R, client):
     name, gen, _w = R.choices(CATALOGUE, weights=_CAT_W)[0]
     args, kwargs = gen(R)
+    offtype = False
+    if R.random() < _OFFTYPE_P:
+        # off-type request: the first dense quaternion matrix is handed over as a
+        # SparseQuaternionMatrix.  Whatever the routine does with it (answer or raise), it must
+        # do the same in every import world and the same as the pristine world.
+        for ai, a in enumerate(args):
+            if isinstance(a, dict) and a.get("gen") in ("gauss", "int", "psvd", "herm", "zeros") \
+                    and "storage" not in a and "layout" not in a:
+                args = list(args)
+                args[ai] = SP(a)
+                offtype = True
+                break
     st = {"k": "fn", "fn": name, "args": args, "client": client}
+    if offtype:
+        st["tags"] = {"offtype": "sparse"}
     if kwargs:
         st["kwargs"] = kwargs
     return st
@@ -668,6 +686,42 @@ def gen_jobs(base_seed, tier, budget=None):
             jobs.append({"seed": seed, "trace": {"prop": PROP, "seed": seed, "world": w, "mode": "buffer",
                                                  "cfgname": fn, "seq": ["H", "N", "H", "N", "H"], "steps": steps}})
         sid += 1
+    # off-type table: every catalogue function (and every solver configuration) once with its
+    # first dense quaternion matrix handed over as a SparseQuaternionMatrix, in EVERY world -
+    # answered or rejected, the outcome must not depend on the import style (class identity)
+    seen = set()
+    for ci, (name, gen, _w) in enumerate(CATALOGUE):
+        R = sub_rng(base_seed, "offtype", ci)
+        for _try in range(4):
+            args, kwargs = gen(R)
+            ai = next((k for k, a in enumerate(args) if isinstance(a, dict)
+                       and a.get("gen") in ("gauss", "int", "psvd", "herm", "zeros") and "storage" not in a), None)
+            if ai is not None:
+                break
+        if ai is None or (name, ai) in seen:
+            continue
+        seen.add((name, ai))
+        args = list(args)
+        args[ai] = SP(args[ai])
+        st = {"k": "fn", "fn": name, "args": args, "client": 0, "tags": {"offtype": "sparse"}}
+        if kwargs:
+            st["kwargs"] = kwargs
+        seed = base_seed * 10 ** 6 + 500000 + ci
+        for w in worlds:
+            jobs.append({"seed": seed, "trace": {"prop": PROP, "seed": seed, "world": w, "mode": "offtype",
+                                                 "cfgname": name, "seq": ["sparse"],
+                                                 "steps": [{"k": "rng", "op": "seed", "v": 17}, st]}})
+    for ci, (cfgname, cls_, cfg_, meth_, pool_) in enumerate(CONFIGS):
+        prob = next((p_ for p_ in pool_[1:] if isinstance(p_[0], dict) and "storage" not in p_[0]), None)
+        if prob is None:
+            continue
+        seed = base_seed * 10 ** 6 + 510000 + ci
+        for w in worlds:
+            steps = [{"k": "rng", "op": "seed", "v": 17}, {"k": "new", "obj": "s0", "cls": cls_, "cfg": cfg_},
+                     {"k": "call", "obj": "s0", "meth": meth_, "args": [SP(prob[0])] + list(prob[1:]), "client": 0,
+                      "cfgname": cfgname, "tags": {"offtype": "sparse"}}]
+            jobs.append({"seed": seed, "trace": {"prop": PROP, "seed": seed, "world": w, "mode": "offtype",
+                                                 "cfgname": cfgname, "seq": ["sparse"], "steps": steps}})
     n_rand = budget if budget is not None else (400 if tier == "quick" else 12000)
     for i in range(n_rand):
         seed = base_seed * 10 ** 6 + i
@@ -854,6 +908,8 @@ def finding_tags(trace, v):
         tags["meth"] = st.get("meth")
     if "fn" in st:
         tags["fn"] = st["fn"]
+    if (st.get("tags") or {}).get("offtype"):
+        tags["offtype"] = st["tags"]["offtype"]
     return tags
 
 
@@ -863,7 +919,7 @@ def violation_target(trace, v):
 
 
 def signature(trace, result):
-    if trace.get("mode") in ("exhaustive", "recovery", "buffer"):
+    if trace.get("mode") in ("exhaustive", "recovery", "buffer", "offtype"):
         return f"{trace['mode']}:{trace['cfgname']}:{trace['seq']}:{trace['world']}"
     sig = []
     for s in trace["steps"]:
@@ -882,6 +938,8 @@ def signature(trace, result):
 
 
 def nontrivial(trace, result):
+    if trace.get("mode") == "offtype":
+        return True
     if trace.get("mode") == "recovery":
         return bool((result.get("stats") or {}).get("after_fault_calls"))
     per_obj = {}
